@@ -9,15 +9,18 @@ git -C /repo worktree add -q $wt HEAD || exit 2
 out=/verif/seeded/$name; mkdir -p $out
 cp $src/patch.diff $src/demo_test.go $out/
 res=$out/confirm.log; : > $res
+loc=$(python3 -c "import json;print(json.load(open('$src/meta.json')).get('demo_location','root'))" 2>/dev/null || echo root)
+ddir=.; dpkg=.
+if [ "$loc" != "root" ] && [ -n "$loc" ]; then ddir=$loc; dpkg=./$loc; fi
 ( cd $wt
-  cp $src/demo_test.go ./zz_seed_demo_test.go
-  echo "== pristine demo" >> $res; go test -vet=off -count=1 -run TestSeedDemo . >> $res 2>&1; p0=$?
-  rm -f zz_seed_demo_test.go
+  cp $src/demo_test.go $ddir/zz_seed_demo_test.go
+  echo "== pristine demo" >> $res; timeout 300 go test -vet=off -count=1 -run TestSeedDemo $dpkg >> $res 2>&1; p0=$?
+  rm -f $ddir/zz_seed_demo_test.go
   git apply $src/patch.diff >> $res 2>&1 || { echo "APPLY FAILED" >> $res; }
   echo "== build" >> $res; go build ./... >> $res 2>&1; b=$?
   echo "== suite" >> $res; go test -vet=off -count=1 ./... 2>&1 | tail -12 >> $res; s=${PIPESTATUS[0]}
-  cp $src/demo_test.go ./zz_seed_demo_test.go
-  echo "== seeded demo" >> $res; go test -vet=off -count=1 -run TestSeedDemo . >> $res 2>&1; p1=$?
+  cp $src/demo_test.go $ddir/zz_seed_demo_test.go
+  echo "== seeded demo" >> $res; timeout 300 go test -vet=off -count=1 -run TestSeedDemo $dpkg >> $res 2>&1; p1=$?
   echo "RESULT pristine_demo_exit=$p0 build_exit=$b suite_exit=$s seeded_demo_exit=$p1" >> $res
 )
 git -C /repo worktree remove --force $wt
